@@ -92,8 +92,58 @@ pub fn bodies() -> Vec<(&'static str, Vec<u8>)> {
         ("json-wrong-type", br#"{"a":"str","s":1}"#.to_vec()),
         ("json-truncated", br#"{"a":1,"s":"#.to_vec()),
         ("binary-nul-ff", vec![0x00, 0xff, 0x00, 0x80]),
+        // "valid value of the expected type + something after it": the conforming decoder accepts
+        // trailing whitespace only. Crossed with the status subset in both tiers (CORE_BODIES
+        // is where this family starts).
+        ("json-ok-trailing-whitespace", b"{\"a\":1,\"s\":\"x\"} \n\t\r\n".to_vec()),
+        ("json-ok-leading-whitespace", b"\r\n\t {\"a\":1,\"s\":\"x\"}".to_vec()),
+        ("json-ok-then-word", br#"{"a":1,"s":"x"} trailing"#.to_vec()),
+        ("json-concatenated-documents", b"{\"a\":1,\"s\":\"x\"}\n{\"a\":2,\"s\":\"y\"}\n".to_vec()),
+        ("json-ok-trailing-comma", br#"{"a":1,"s":"x"},"#.to_vec()),
+        ("json-ok-trailing-bracket", br#"{"a":1,"s":"x"}]"#.to_vec()),
+        ("json-ok-trailing-brace", br#"{"a":1,"s":"x"}}"#.to_vec()),
+        ("json-ok-trailing-nul", b"{\"a\":1,\"s\":\"x\"}\0".to_vec()),
+        ("json-ok-trailing-non-utf8", b"{\"a\":1,\"s\":\"x\"}\n\xff".to_vec()),
+        ("json-bom-ok", b"\xEF\xBB\xBF{\"a\":1,\"s\":\"x\"}".to_vec()),
+        ("json-bom-ok-then-document", b"\xEF\xBB\xBF{\"a\":1,\"s\":\"x\"}{\"a\":2,\"s\":\"y\"}".to_vec()),
     ]
 }
+
+/// Bodies before this index are crossed with every status that gets the full product; the
+/// trailing-data family after it with the status subset (JSON decoding does not depend on which
+/// success status carries the body).
+pub const CORE_BODIES: usize = 13;
+
+/// Scalar JSON expectations (`expect_json::<u64>()`, `expect_json::<String>()`): the same
+/// family for values that are not objects.
+pub fn scalar_bodies() -> Vec<(&'static str, Vec<u8>)> {
+    vec![
+        ("num", b"1".to_vec()),
+        ("num-trailing-whitespace", b"1 \n".to_vec()),
+        ("num-num", b"1 2".to_vec()),
+        ("num-comma", b"12,".to_vec()),
+        ("num-bracket", b"7]".to_vec()),
+        ("num-too-big", b"18446744073709551616".to_vec()),
+        ("num-max", b"18446744073709551615".to_vec()),
+        ("string", br#""a""#.to_vec()),
+        ("string-string", br#""a""b""#.to_vec()),
+        ("string-word", br#""a" x"#.to_vec()),
+        ("string-trailing-whitespace", b"\"a\\u00e9\"\n".to_vec()),
+        ("null", b"null".to_vec()),
+        ("empty", vec![]),
+        ("whitespace-only", b" \n".to_vec()),
+    ]
+}
+#[derive(Debug, Clone, Copy, PartialEq, Eq)]
+pub enum ScalarTy {
+    U64,
+    Text,
+}
+pub const SCALAR_TYS: &[ScalarTy] = &[ScalarTy::U64, ScalarTy::Text];
+pub const SCALAR_STATUSES: &[u16] = &[200, 203, 304];
+/// `ResponseAsync::body_json` (what `Client::recv_json` and every middleware use) does not
+/// classify by status, so an error status decodes too.
+pub const ASYNC_STATUSES: &[u16] = &[200, 404];
 
 #[derive(Debug, Clone, Copy, PartialEq, Eq)]
 pub enum Expect {
@@ -131,16 +181,26 @@ pub struct Alphabets {
     pub header_sets: Vec<(&'static str, Vec<(&'static str, &'static str)>)>,
     pub bodies: Vec<(&'static str, Vec<u8>)>,
     pub errors: Vec<HttpError>,
+    pub scalar_bodies: Vec<(&'static str, Vec<u8>)>,
 }
 
 pub fn alphabets() -> Arc<Alphabets> {
-    Arc::new(Alphabets { header_sets: header_sets(), bodies: bodies(), errors: shell_errors() })
+    Arc::new(Alphabets {
+        header_sets: header_sets(),
+        bodies: bodies(),
+        errors: shell_errors(),
+        scalar_bodies: scalar_bodies(),
+    })
 }
 
 #[derive(Debug, Clone, Copy, PartialEq, Eq, serde::Serialize, serde::Deserialize)]
 pub enum CaseIx {
     Response { api: usize, expect: usize, status: u16, headers: usize, body: usize },
     ShellError { api: usize, expect: usize, error: usize },
+    /// `expect_json::<u64>()` / `expect_json::<String>()` on a scalar body
+    Scalar { api: usize, ty: usize, status: u16, body: usize },
+    /// the awaited capability builder + `ResponseAsync::body_json::<Payload>()`
+    AsyncJson { status: u16, body: usize },
 }
 
 // ---------------------------------------------------------------------------------------------
@@ -152,10 +212,13 @@ pub enum ObsBody {
     Bytes(Vec<u8>),
     Str(String),
     Json(Payload),
+    Num(u64),
 }
 
 #[derive(Debug, Clone, PartialEq)]
 pub enum Obs {
+    /// summary of what `ResponseAsync::body_json` returned
+    Async(String),
     Ok { status: u16, headers: Vec<(String, String)>, body: ObsBody },
     Err(HttpError),
 }
@@ -176,7 +239,9 @@ fn observe(ev: &Event) -> Option<Obs> {
         Event::Bytes(Ok(r)) => observe_response(r, r.body().cloned().map_or(ObsBody::Missing, ObsBody::Bytes)),
         Event::Str(Ok(r)) => observe_response(r, r.body().cloned().map_or(ObsBody::Missing, ObsBody::Str)),
         Event::Json(Ok(r)) => observe_response(r, r.body().cloned().map_or(ObsBody::Missing, ObsBody::Json)),
-        Event::Bytes(Err(e)) | Event::Str(Err(e)) | Event::Json(Err(e)) => Obs::Err(e.clone()),
+        Event::Num(Ok(r)) => observe_response(r, r.body().cloned().map_or(ObsBody::Missing, ObsBody::Num)),
+        Event::Bytes(Err(e)) | Event::Str(Err(e)) | Event::Json(Err(e)) | Event::Num(Err(e)) => Obs::Err(e.clone()),
+        Event::Async(s) => Obs::Async(s.clone()),
         _ => return None,
     })
 }
@@ -189,8 +254,11 @@ pub enum RefBody {
     Bytes(Vec<u8>),
     Str(String),
     Json(Payload),
+    Num(u64),
     /// the conforming decoder rejects the body: an error value is required
     MustErr(&'static str),
+    /// the conforming JSON decoder rejects the body: an `HttpError::Json` value is required
+    MustErrJson(&'static str),
     /// unknown charset label: an error value, or the UTF-8 reading when the bytes are UTF-8
     ErrOr(Option<String>),
 }
@@ -205,6 +273,15 @@ pub enum Reference {
     /// exactly one event, never a panic
     Unclassified { status: u16, headers: Vec<(String, String)>, body: RefBody },
     ShellError(HttpError),
+    /// expected summary of `ResponseAsync::body_json`
+    Async(String),
+}
+
+fn async_summary(r: &Result<Payload, String>) -> String {
+    match r {
+        Ok(p) => format!("ok:{p:?}"),
+        Err(kind) => format!("err:{kind}"),
+    }
 }
 
 /// Charset parameter of a content-type value, by a parser written for this check (WHATWG MIME
@@ -233,7 +310,7 @@ fn reference_body(headers: &[(&str, &str)], body: &[u8], expect: Expect) -> RefB
         Expect::Bytes => RefBody::Bytes(body.to_vec()),
         Expect::Json => match serde_json::from_slice::<Payload>(body) {
             Ok(p) => RefBody::Json(p),
-            Err(_) => RefBody::MustErr("serde_json rejects the body for the expected type"),
+            Err(_) => RefBody::MustErrJson("serde_json::from_slice rejects the body for the expected type"),
         },
         Expect::Str => {
             // the response's content type is the last content-type header line (Fetch: "extract
@@ -273,6 +350,18 @@ fn reference_body(headers: &[(&str, &str)], body: &[u8], expect: Expect) -> RefB
 pub fn reference(ix: CaseIx, al: &Alphabets) -> Reference {
     match ix {
         CaseIx::ShellError { error, .. } => Reference::ShellError(al.errors[error].clone()),
+        CaseIx::Scalar { ty, status, body, .. } => {
+            let b = &al.scalar_bodies[body].1;
+            let rejected = RefBody::MustErrJson("serde_json::from_slice rejects the body for the expected type");
+            let body = match SCALAR_TYS[ty] {
+                ScalarTy::U64 => serde_json::from_slice::<u64>(b).map_or(rejected.clone(), RefBody::Num),
+                ScalarTy::Text => serde_json::from_slice::<String>(b).map_or(rejected, RefBody::Str),
+            };
+            Reference::Success { status, headers: vec![("content-type".into(), "application/json".into())], body }
+        }
+        CaseIx::AsyncJson { body, .. } => Reference::Async(async_summary(
+            &serde_json::from_slice::<Payload>(&al.bodies[body].1).map_err(|_| "json".to_string()),
+        )),
         CaseIx::Response { expect, status, headers, body, .. } => {
             let hs = &al.header_sets[headers].1;
             let b = &al.bodies[body].1;
@@ -299,6 +388,7 @@ fn body_matches(want: &RefBody, got: &ObsBody) -> bool {
         (RefBody::Bytes(a), ObsBody::Bytes(b)) => a == b,
         (RefBody::Str(a), ObsBody::Str(b)) => a == b,
         (RefBody::Json(a), ObsBody::Json(b)) => a == b,
+        (RefBody::Num(a), ObsBody::Num(b)) => a == b,
         (RefBody::ErrOr(Some(a)), ObsBody::Str(b)) => a == b,
         _ => false,
     }
@@ -331,7 +421,7 @@ pub fn compare(want: &Reference, got: &Obs) -> Option<(String, String)> {
                     };
                     return Some((key.into(), format!("headers: extra {extra:?} missing {missing:?} (delivered {h:?})")));
                 }
-                if matches!(body, RefBody::MustErr(_)) {
+                if matches!(body, RefBody::MustErr(_) | RefBody::MustErrJson(_)) {
                     return Some((
                         "response/undecodable-body-accepted".into(),
                         format!("body delivered as {b:?} although {body:?}"),
@@ -340,7 +430,7 @@ pub fn compare(want: &Reference, got: &Obs) -> Option<(String, String)> {
                 if !body_matches(body, b) {
                     let key = match (body, b) {
                         (RefBody::Bytes(_), _) => "response/body-altered",
-                        (RefBody::Json(_), _) => "response/json-decoding",
+                        (RefBody::Json(_) | RefBody::Num(_), _) => "response/json-decoding",
                         (RefBody::Str(w), ObsBody::Str(g)) if g.strip_prefix('\u{feff}') == Some(w.as_str()) => {
                             "response/string-bom-kept"
                         }
@@ -350,13 +440,21 @@ pub fn compare(want: &Reference, got: &Obs) -> Option<(String, String)> {
                 }
                 None
             }
+            Obs::Async(s) => Some(("response/event-kind".into(), format!("async summary {s:?} where a response event is due"))),
             Obs::Err(e) => match body {
                 RefBody::MustErr(_) | RefBody::ErrOr(_) => None,
+                RefBody::MustErrJson(_) => match e {
+                    HttpError::Json(_) => None,
+                    other => Some((
+                        "response/json-error-kind".into(),
+                        format!("undecodable JSON body reported as {other:?}, not as HttpError::Json"),
+                    )),
+                },
                 _ => {
                     let key = match (body, e) {
                         (_, HttpError::Http { .. }) => "response/success-classified-as-error",
                         (RefBody::Str(_), _) => "response/string-decoding",
-                        (RefBody::Json(_), _) => "response/json-decoding",
+                        (RefBody::Json(_) | RefBody::Num(_), _) => "response/json-decoding",
                         _ => "response/success-classified-as-error",
                     };
                     Some((key.into(), format!("error {e:?}, expected success {status} with body {body:?}")))
@@ -388,6 +486,21 @@ pub fn compare(want: &Reference, got: &Obs) -> Option<(String, String)> {
                 "response/error-classified-as-success".into(),
                 format!("status {status} delivered as success (status {s})"),
             )),
+            Obs::Async(s) => Some(("response/event-kind".into(), format!("async summary {s:?} where a response event is due"))),
+        },
+        Reference::Async(want) => match got {
+            Obs::Async(g) if g == want => None,
+            Obs::Async(g) => {
+                let key = if want.starts_with("err:") && g.starts_with("ok:") {
+                    "response/undecodable-body-accepted"
+                } else if want.starts_with("err:json") && g.starts_with("err:") {
+                    "response/json-error-kind"
+                } else {
+                    "response/json-decoding"
+                };
+                Some((key.into(), format!("ResponseAsync::body_json gave {g:?}, the conforming decoder {want:?}")))
+            }
+            other => Some(("response/event-kind".into(), format!("{other:?} where an async summary is due"))),
         },
         Reference::ShellError(e) => match got {
             Obs::Err(g) if g == e => None,
@@ -413,6 +526,62 @@ fn classify_panic(p: &PanicInfo, ix: CaseIx, al: &Alphabets) -> String {
 }
 
 // ---------------------------------------------------------------------------------------------
+
+#[derive(Debug, Clone, Copy)]
+enum Plan {
+    Std(Api, Expect),
+    Scalar(Api, ScalarTy),
+    AsyncJson,
+}
+
+fn plan_of(ix: CaseIx) -> Plan {
+    match ix {
+        CaseIx::Response { api, expect, .. } | CaseIx::ShellError { api, expect, .. } => Plan::Std(APIS[api], EXPECTS[expect]),
+        CaseIx::Scalar { api, ty, .. } => Plan::Scalar(APIS[api], SCALAR_TYS[ty]),
+        CaseIx::AsyncJson { .. } => Plan::AsyncJson,
+    }
+}
+
+fn start_plan(plan: Plan) -> (Host, crate::app::Step) {
+    match plan {
+        Plan::Std(api, expect) => start(api, expect),
+        Plan::Scalar(Api::Command, ty) => {
+            let b = CmdHttp::get(URL);
+            Host::start_cmd(match ty {
+                ScalarTy::U64 => b.expect_json::<u64>().build().then_send(Event::Num),
+                ScalarTy::Text => b.expect_json::<String>().build().then_send(Event::Str),
+            })
+        }
+        Plan::Scalar(Api::Capability, ty) => {
+            let program: Program = Arc::new(move |caps: &Capabilities| {
+                let b = caps.http.get(URL);
+                match ty {
+                    ScalarTy::U64 => b.expect_json::<u64>().send(Event::Num),
+                    ScalarTy::Text => b.expect_json::<String>().send(Event::Str),
+                }
+                crux_core::Command::done()
+            });
+            Host::start_caps(program)
+        }
+        Plan::AsyncJson => {
+            let program: Program = Arc::new(move |caps: &Capabilities| {
+                let b = caps.http.get(URL);
+                caps.compose.spawn(|ctx| async move {
+                    let summary = match b.await {
+                        Ok(mut res) => async_summary(&res.body_json::<Payload>().await.map_err(|e| match e {
+                            HttpError::Json(_) => "json".to_string(),
+                            other => format!("other:{other:?}"),
+                        })),
+                        Err(e) => format!("send-failed:{e:?}"),
+                    };
+                    ctx.update_app(Event::Async(summary));
+                });
+                crux_core::Command::done()
+            });
+            Host::start_caps(program)
+        }
+    }
+}
 
 fn start(api: Api, expect: Expect) -> (Host, crate::app::Step) {
     match api {
@@ -451,6 +620,16 @@ pub struct CaseResult {
 fn shell_answer(ix: CaseIx, al: &Alphabets) -> HttpResult {
     match ix {
         CaseIx::ShellError { error, .. } => HttpResult::Err(al.errors[error].clone()),
+        CaseIx::Scalar { status, body, .. } => HttpResult::Ok(HttpResponse {
+            status,
+            headers: vec![HttpHeader { name: "content-type".into(), value: "application/json".into() }],
+            body: al.scalar_bodies[body].1.clone(),
+        }),
+        CaseIx::AsyncJson { status, body } => HttpResult::Ok(HttpResponse {
+            status,
+            headers: vec![HttpHeader { name: "content-type".into(), value: "application/json".into() }],
+            body: al.bodies[body].1.clone(),
+        }),
         CaseIx::Response { status, headers, body, .. } => HttpResult::Ok(HttpResponse {
             status,
             headers: al.header_sets[headers]
@@ -464,14 +643,12 @@ fn shell_answer(ix: CaseIx, al: &Alphabets) -> HttpResult {
 }
 
 pub fn run_case(ix: CaseIx, al: &Alphabets, verbose: bool) -> CaseResult {
-    let (api, expect) = match ix {
-        CaseIx::Response { api, expect, .. } | CaseIx::ShellError { api, expect, .. } => (APIS[api], EXPECTS[expect]),
-    };
+    let plan = plan_of(ix);
     let answer = shell_answer(ix, al);
     let r = catch(move || {
         let mut trace = vec![];
         let mut transitions = 2u64; // build, first poll
-        let (mut host, step) = start(api, expect);
+        let (mut host, step) = start_plan(plan);
         if step.requests.len() != 1 || !step.events.is_empty() {
             return (transitions, trace, Err(format!("{} effects, {} events before the answer", step.requests.len(), step.events.len())));
         }
@@ -530,6 +707,7 @@ pub fn run_case(ix: CaseIx, al: &Alphabets, verbose: bool) -> CaseResult {
             let outcome = match (&finding, &obs) {
                 (Some((k, _)), _) => k.clone(),
                 (None, Obs::Ok { .. }) => "success".to_string(),
+                (None, Obs::Async(a)) => format!("async-{}", a.split(':').next().unwrap_or("")),
                 (None, Obs::Err(HttpError::Http { .. })) => "err-http".to_string(),
                 (None, Obs::Err(HttpError::Json(_))) => "err-json".to_string(),
                 (None, Obs::Err(HttpError::Url(_))) => "err-url".to_string(),
@@ -551,6 +729,19 @@ pub fn describe_case(ix: CaseIx, al: &Alphabets) -> Value {
             "headers": format!("{}: {:?}", al.header_sets[headers].0, al.header_sets[headers].1),
             "body": format!("{}: {}", al.bodies[body].0, util::show_bytes(&al.bodies[body].1)),
         }),
+        CaseIx::Scalar { api, ty, status, body } => json!({
+            "ix": ix,
+            "api": format!("{:?}", APIS[api]),
+            "expect": format!("expect_json::<{}>", match SCALAR_TYS[ty] { ScalarTy::U64 => "u64", ScalarTy::Text => "String" }),
+            "status": status,
+            "body": format!("{}: {}", al.scalar_bodies[body].0, util::show_bytes(&al.scalar_bodies[body].1)),
+        }),
+        CaseIx::AsyncJson { status, body } => json!({
+            "ix": ix,
+            "api": "capability builder awaited, then ResponseAsync::body_json::<Payload>()",
+            "status": status,
+            "body": format!("{}: {}", al.bodies[body].0, util::show_bytes(&al.bodies[body].1)),
+        }),
         CaseIx::ShellError { api, expect, error } => json!({
             "ix": ix,
             "api": format!("{:?}", APIS[api]),
@@ -566,6 +757,8 @@ fn case_size(ix: CaseIx) -> usize {
             ((headers * 16 + body) * 8 + expect * 2 + api) * 70000 + status as usize
         }
         CaseIx::ShellError { api, expect, error } => error * 8 + expect * 2 + api,
+        CaseIx::Scalar { api, ty, status, body } => (body * 4 + ty * 2 + api) * 1000 + status as usize,
+        CaseIx::AsyncJson { status, body } => body * 1000 + status as usize,
     }
 }
 
@@ -574,7 +767,7 @@ fn is_nontrivial(ix: CaseIx) -> bool {
         // anything but the one response the repository's tests use (200, no headers beyond
         // json, small body) counts; measured, not assumed
         CaseIx::Response { status, headers, body, .. } => !(status == 200 && headers == 0 && body == 0),
-        CaseIx::ShellError { .. } => true,
+        CaseIx::ShellError { .. } | CaseIx::Scalar { .. } | CaseIx::AsyncJson { .. } => true,
     }
 }
 
@@ -605,6 +798,18 @@ fn self_checks(al: &Alphabets) -> Value {
     util::assert_no_duplicates("bodies", &al.bodies);
     util::assert_no_duplicates("errors", &al.errors);
     util::assert_no_duplicates("status subset", &STATUS_SUBSET);
+    util::assert_no_duplicates("scalar bodies", &al.scalar_bodies);
+    if al.bodies[CORE_BODIES - 1].0 != "binary-nul-ff" || al.bodies[CORE_BODIES].0 != "json-ok-trailing-whitespace" {
+        mc_kit::machinery_error("CORE_BODIES does not point at the start of the trailing-data family");
+    }
+    // the reference must accept trailing whitespace only
+    for (name, body) in &al.bodies[CORE_BODIES..] {
+        let ok = serde_json::from_slice::<Payload>(body).is_ok();
+        let want_ok = matches!(*name, "json-ok-trailing-whitespace" | "json-ok-leading-whitespace");
+        if ok != want_ok {
+            mc_kit::machinery_error(&format!("reference decoder on {name}: ok={ok}, alphabet says {want_ok}"));
+        }
+    }
     // charset parser
     for (input, want) in [
         ("text/plain; charset=utf-8", Some("utf-8")),
@@ -642,8 +847,22 @@ fn self_checks(al: &Alphabets) -> Value {
     for w in &wrongs2 {
         rejected += compare(w, &obs_err).is_some() as u32;
     }
-    if rejected != 10 {
-        mc_kit::machinery_error(&format!("C15 canary: only {rejected}/10 wrong references rejected"));
+    // a decoded value where the conforming decoder refuses, and a refusal of the wrong kind
+    let must_err = Reference::Success {
+        status: 200,
+        headers: vec![],
+        body: RefBody::MustErrJson("canary"),
+    };
+    let first_doc = Obs::Ok { status: 200, headers: vec![], body: ObsBody::Json(Payload { a: 1, s: "x".into() }) };
+    rejected += matches!(compare(&must_err, &first_doc), Some((k, _)) if k == "response/undecodable-body-accepted") as u32;
+    rejected += matches!(compare(&must_err, &Obs::Err(HttpError::Io("x".into()))), Some((k, _)) if k == "response/json-error-kind") as u32;
+    rejected += compare(&must_err, &Obs::Err(HttpError::Json("trailing characters".into()))).is_none() as u32;
+    rejected += matches!(
+        compare(&Reference::Async("err:json".into()), &Obs::Async("ok:Payload".into())),
+        Some((k, _)) if k == "response/undecodable-body-accepted"
+    ) as u32;
+    if rejected != 14 {
+        mc_kit::machinery_error(&format!("C15 canary: only {rejected}/14 reference checks came out right"));
     }
     // determinism on the first case
     let ix = CaseIx::Response { api: 0, expect: 1, status: 200, headers: 2, body: 2 };
@@ -711,7 +930,9 @@ pub fn run(tier: Tier) -> i32 {
             for api in 0..APIS.len() {
                 for expect in 0..EXPECTS.len() {
                     for headers in 0..al_ref.header_sets.len() {
-                        for body in 0..al_ref.bodies.len() {
+                        // the trailing-data family rides on the status subset only
+                        let n_bodies = if STATUS_SUBSET.contains(&status) { al_ref.bodies.len() } else { CORE_BODIES };
+                        for body in 0..n_bodies {
                             if headers == SWEEP_HEADERS && body == SWEEP_BODY {
                                 continue; // already run by the sweep
                             }
@@ -739,6 +960,21 @@ pub fn run(tier: Tier) -> i32 {
             }
         }
     }
+    // scalar JSON expectations and the ResponseAsync::body_json path
+    for api in 0..APIS.len() {
+        for ty in 0..SCALAR_TYS.len() {
+            for &status in SCALAR_STATUSES {
+                for body in 0..al.scalar_bodies.len() {
+                    account(&mut e, CaseIx::Scalar { api, ty, status, body }, &al);
+                }
+            }
+        }
+    }
+    for &status in ASYNC_STATUSES {
+        for body in 0..al.bodies.len() {
+            account(&mut e, CaseIx::AsyncJson { status, body }, &al);
+        }
+    }
     aggs.push(e);
     let mut total = util::merge_all(aggs, 16);
     let skipped = total.outcomes.remove("__skipped_status").unwrap_or(0);
@@ -751,10 +987,15 @@ pub fn run(tier: Tier) -> i32 {
     }
     let occurrences = total.report(&reporter);
     util::require_nonvacuous("C15", total.nontrivial, total.outcomes.len());
-    let per_status = APIS.len() * EXPECTS.len() * al.header_sets.len() * al.bodies.len();
-    let expected_total = swept * APIS.len() * EXPECTS.len()
-        + full * (per_status - APIS.len() * EXPECTS.len())
-        + APIS.len() * EXPECTS.len() * al.errors.len();
+    let ae = APIS.len() * EXPECTS.len();
+    let per_status_core = ae * al.header_sets.len() * CORE_BODIES;
+    let per_status_family = ae * al.header_sets.len() * (al.bodies.len() - CORE_BODIES);
+    let expected_total = swept * ae
+        + full * (per_status_core - ae)
+        + STATUS_SUBSET.len() * per_status_family
+        + ae * al.errors.len()
+        + APIS.len() * SCALAR_TYS.len() * SCALAR_STATUSES.len() * al.scalar_bodies.len()
+        + ASYNC_STATUSES.len() * al.bodies.len();
     let planned_full = statuses.iter().filter(|s| full_product(**s)).count();
     let exhaustive = skipped == 0 && swept == 65536 && full == planned_full && total.evaluations as usize == expected_total;
     let coverage = json!({
@@ -763,7 +1004,7 @@ pub fn run(tier: Tier) -> i32 {
         "traces_validated_against_impl": total.validated,
         "evaluations": total.evaluations,
         "distinct_nontrivial": total.nontrivial,
-        "rule": "bounded-exhaustive cartesian product (model_checking by exhaustive enumeration of a finite input space, no sampling): every status code 0..=65535 x apis x expectations on the sweep response, and the full product apis x expectations x header-lists x bodies for the statuses of the subset (quick) / for all 65536 statuses (thorough), plus every shell error x apis x expectations; each case = build the request through the real API, take the effect, answer it, take the event, compare with the reference; cases are distinct by construction (distinct index tuples over duplicate-free alphabets, checked at start); non-trivial = anything but (200, no headers, empty body)",
+        "rule": "bounded-exhaustive cartesian product (model_checking by exhaustive enumeration of a finite input space, no sampling): every status code 0..=65535 x apis x expectations on the sweep response, and the full product apis x expectations x header-lists x bodies for the statuses of the subset (quick) / for all 65536 statuses (thorough), plus every shell error x apis x expectations, plus the JSON trailing-data family (bodies from index CORE_BODIES on) in the full product for the status subset in both tiers, expect_json::<u64>/<String> x scalar bodies x 3 statuses x apis, and the awaited builder + ResponseAsync::body_json::<Payload>() x every body x 2 statuses; each case = build the request through the real API, take the effect, answer it, take the event, compare with the reference; cases are distinct by construction (distinct index tuples over duplicate-free alphabets, checked at start); non-trivial = anything but (200, no headers, empty body)",
         "exhaustive": exhaustive,
         "bounds_completed": {
             "statuses_swept": swept,
@@ -779,6 +1020,11 @@ pub fn run(tier: Tier) -> i32 {
             "sweep_response": format!("headers {:?} body {}", al.header_sets[SWEEP_HEADERS], util::show_bytes(&al.bodies[SWEEP_BODY].1)),
             "header_lists": al.header_sets.iter().map(|h| format!("{h:?}")).collect::<Vec<_>>(),
             "bodies": al.bodies.iter().map(|(n, b)| format!("{n}: {}", util::show_bytes(b))).collect::<Vec<_>>(),
+            "core_bodies (crossed with every full-product status)": CORE_BODIES,
+            "scalar_bodies": al.scalar_bodies.iter().map(|(n, b)| format!("{n}: {}", util::show_bytes(b))).collect::<Vec<_>>(),
+            "scalar_expectations": ["expect_json::<u64>()", "expect_json::<String>()"],
+            "scalar_statuses": SCALAR_STATUSES.to_vec(),
+            "async_body_json_statuses": ASYNC_STATUSES.to_vec(),
             "shell_errors": al.errors.iter().map(|e| format!("{e:?}")).collect::<Vec<_>>(),
             "json_expectation_type": "struct Payload { a: u32, s: String }",
         },
@@ -792,7 +1038,7 @@ pub fn run(tier: Tier) -> i32 {
         "model_checking",
         coverage,
         &[
-            "encoding_rs (WHATWG decode incl. BOM sniffing), serde_json and String::from_utf8 are the conforming decoders",
+            "encoding_rs (WHATWG decode incl. BOM sniffing), serde_json::from_slice (whole body = one JSON value, trailing whitespace only) and String::from_utf8 are the conforming decoders; a JSON body the reference rejects must come back as an HttpError::Json value",
             "with several content-type lines the last one is the response's content type (Fetch 'extract a MIME type')",
             "for statuses outside 100..=599 the property fixes no class: success with unchanged data or an error value are both accepted, a panic is not",
             "an unknown charset label may yield an error value or the UTF-8 reading",
